@@ -56,6 +56,35 @@ def mutate_json(r, raw):
     return json.dumps(obj).encode()
 
 
+def model_compare(codec, lines, out):
+    """run the driver's codec mode on the case lines; compare with the harness output field by field (instants without zone)"""
+    import re
+    with env.scratch("verif-cdm-") as d:
+        cp, mp = os.path.join(d, "cases.txt"), os.path.join(d, "model.txt")
+        with open(cp, "w") as f:
+            f.write("\n".join(lines) + "\n")
+        with open(mp, "wb") as f:
+            p = subprocess.run([env.driver_path(), "codec", cp], stdout=f, stderr=subprocess.PIPE, timeout=1800)
+        if p.returncode != 0:
+            return [(lines[0] if lines else "", "driver failed", p.stderr.decode(errors="replace")[-200:])], 0
+        with open(mp) as f:
+            model = f.read().split("\n")
+    bad, n = [], 0
+    for l, o, m in zip(lines, out, model):
+        if m == "skip" or not m or " ok " not in o:
+            continue
+        n += 1
+        fo = dict(kv.split("=", 1) for kv in o.split(" ")[3:] if "=" in kv)
+        fm = dict(kv.split("=", 1) for kv in m.split(" ")[2:] if "=" in kv)
+        for k in ("cr", "la"):
+            fo[k] = "-62135596800.0" if fo.get(k) == "zero" else re.sub(r"@-?\d+$", "", fo.get(k, ""))
+        for k in ("us", "cr", "la", "ip", "ua", "rf", "da"):
+            if fo.get(k) != fm.get(k):
+                bad.append((l, "%s=%s" % (k, fo.get(k)), "%s=%s" % (k, fm.get(k))))
+                break
+    return bad, n
+
+
 def run_codec_check(prop, codec, tier, seed, replay=None):
     rep = Report(prop, tier, seed)
     try:
@@ -81,6 +110,7 @@ def run_codec_check(prop, codec, tier, seed, replay=None):
                 viol.append((o[:200], [l]))
         print("\n".join(out))
         cases, golden, mal = [], [], []
+        mism = ([], 0)
     else:
         n = 3000 if tier == "quick" else 150000
         cases = codeclib.package_shapes(codec) + [codeclib.gen_case(r, codec) for _ in range(n)]
@@ -94,6 +124,10 @@ def run_codec_check(prop, codec, tier, seed, replay=None):
             b = [x for x in o.split(" ") if x.startswith("bytes=")]
             if b:
                 encs.append(bytes.fromhex(b[0][6:]))
+        # the MODEL's codec functions (Sx.enc / Sx.dec, which the coherence and crash theorems are about) on the same cases
+        mism = model_compare(codec, lines, out)
+        rep.cov["model_cases_compared"] = mism[1]
+        rep.cov["model_mismatches"] = len(mism[0])
         # golden corpus: bytes written by the pinned commit keep their meaning
         golden = load_golden(codec)
         glines = ["dec %s %s" % (codec, hx) for hx, _ in golden]
@@ -162,6 +196,10 @@ def run_codec_check(prop, codec, tier, seed, replay=None):
         n += 1
         p = write_replay(prop, n, [prop + " violated: " + what[:300]], "\n".join(ls) + "\n")
         rep.violation(p, what[:300])
+    if not replay and not viol and mism[0]:
+        l, o, m = mism[0][0]
+        p = write_replay(prop, 21, ["the model codec (Sx.enc/Sx.dec) and the real codec disagree on %d cases" % len(mism[0]), "impl : " + o[:300], "model: " + m[:300]], l + "\n")
+        rep.violation(p, "model/implementation codec disagreement on %d cases" % len(mism[0]), no_input=True)
     if not facts_ok:
         if viol:
             pass  # the failing inputs above are the replay
